@@ -59,6 +59,7 @@ class Ctx(object):
         self.evaluations = 0
         self.case = None
         self._scratch_root = None
+        self._case_dirs = []
         self.t0 = time.time()
 
     # ---- determinism
@@ -119,7 +120,14 @@ class Ctx(object):
             base = os.environ.get("TMPDIR", "/var/tmp")
             self._scratch_root = tempfile.mkdtemp(prefix="mpv-%s-%d-" % (self.prop, self.shard), dir=base)
         d = tempfile.mkdtemp(dir=self._scratch_root)
+        self._case_dirs.append(d)
         return d
+
+    def end_case(self):
+        """Remove the directories handed out during the case just run (modules opt in with SCRATCH_PER_CASE)."""
+        for d in self._case_dirs:
+            shutil.rmtree(d, ignore_errors=True)
+        del self._case_dirs[:]
 
     def cleanup(self):
         if self._scratch_root:
